@@ -351,6 +351,41 @@ def run(ctx, report):
     R7 = report.rule('C19.D7', 'the rendering memo `txt` an operand carries after a sum or an AT&T register never decides a candidate', floor=2)
     txt_memo_rule(ctx, R7)
 
+    R8 = report.rule('C19.D8', 'an immediate beside an UNSIZED memory operand ([ebx] without a size keyword: size mark True) is typed by the size of the register operand, as the same line '
+                     'written with WORD PTR / BYTE PTR or in AT&T syntax with a suffix is (arg_set_numpy_imm evaluated on the operand lists both parsers deliver)', floor=8)
+    from .c09 import numpy_imm_eval
+    from ..x86table import model as _x86model
+    afs8 = _x86model(ctx).afs
+    asn8 = ctx.mod('ia32_arch').method('x86_mn', 'arg_set_numpy_imm')
+
+    def reg8(size, **kw):
+        d = {0: 1, afs8.size: size, afs8.ad: False}
+        d.update(kw)
+        return d
+    mem_unsized = {3: 1, afs8.size: True, afs8.ad: True}
+    mem_att = {3: 1, afs8.size: True, afs8.ad: True, 'txt': 'ebx'}
+
+    def imm8(v):
+        return {afs8.imm: v, afs8.ad: False, afs8.size: afs8.u32}
+    cases8 = [('imul ax, [ebx], -2', [reg8(afs8.u16), dict(mem_unsized), imm8(-2)], afs8.u16), ('imul ax, [ebx], 0xFFFE', [reg8(afs8.u16), dict(mem_unsized), imm8(0xFFFE)], afs8.u16),
+              ('shld [ebx], ax, 3', [dict(mem_unsized), reg8(afs8.u16), imm8(3)], afs8.u16), ('op al, [ebx], 1', [reg8(afs8.u08), dict(mem_unsized), imm8(1)], afs8.u08),
+              ('imul eax, [ebx], -2', [reg8(afs8.u32), dict(mem_unsized), imm8(-2)], afs8.u32), ('mov [ebx], 5 (no size anywhere)', [dict(mem_unsized), imm8(5)], afs8.u32),
+              ('imulw $-2, (%ebx), %ax (AT&T operands)', [reg8(afs8.u16, txt='ax'), dict(mem_att), imm8(-2)], afs8.u16),
+              ('imul ax, WORD PTR [ebx], -2', [reg8(afs8.u16), {3: 1, afs8.size: afs8.u16, afs8.ad: afs8.u16}, imm8(-2)], afs8.u16)]
+    for label, args8, want in cases8:
+        try:
+            out8 = numpy_imm_eval(ctx, args8)
+        except NotConst as e:
+            raise AnalysisError('arg_set_numpy_imm is outside the evaluable subset on %s: %s' % (label, e))
+        imm_ = [x_[afs8.imm] for x_ in out8 if afs8.imm in x_][0]
+        inst = 'imm-type:%s' % label
+        if isinstance(imm_, tuple) and imm_[0] == 'TYPED' and imm_[1] == want:
+            R8.ok(inst, sample='%s: immediate typed %s' % (label, want))
+        else:
+            R8.violation(inst, 'imm-type-unsized:%s' % label.split('(')[0].strip(), '%s: the immediate is typed %s although the register operand makes the operand size %s: -2 and 0xFFFE then select '
+                         'different candidates' % (label, imm_[1] if isinstance(imm_, tuple) else type(imm_).__name__, want), where(ctx.mod('ia32_arch'), asn8),
+                         witness="asm('imul ax, [ebx], -2') and asm('imul ax, [ebx], 0xFFFE') are disjoint")
+
 
 def imm_typing_rule(ctx, R):
     """check_imm_size offers the sign-extended imm8 form of a 16-bit operand only to an immediate that carries its width (imm.size == 16, which
@@ -536,6 +571,7 @@ def disp_outside_rule(ctx, R):
 
 
 MUTANTS = [
+    ('numpy-imm-true-kept', 'miasmx/arch/ia32_arch.py', "        size.discard(True)\n        size.discard(x86_afs.u32)", "        size.discard(x86_afs.u32)", 'C19.D8'),
     ('att-sreg-size', 'miasmx/arch/ia32_att.py', "    # same operand size as the Intel parser gives them\n    registers[name] = x86_afs.u32", "    registers[name] = x86_afs.size_seg", 'C19.D4'),
     ('cmov-strip-l', 'miasmx/arch/ia32_arch.py', "        elif len(name) > 5 and name.endswith('l') \\\n                and not name in x86mndb.mnemo_lookup:", "        elif len(name) > 5 and name.endswith('l'):", 'C19.D4'),
     ('deref3-overwrite', 'miasmx/arch/ia32_att.py', "    t[0][reg] = t[6] + t[0].get(reg, 0)", "    t[0][reg] = t[6]", 'C19.D3'),
